@@ -366,7 +366,11 @@ fn process_request_obj(request: &Request, dbs: &Arc<Databases>, client: &mut Cli
             create_db(&name, &token, &dbs, &client, strategy)
         }),
 
-        Request::ElectionActive { node_name: _ } => Response::Ok {}, //Nothing need to be done here now
+        // Nothing needs to be done here now, but the command is sent on to the other nodes: like
+        // the other election commands it is for the nodes of the cluster only
+        Request::ElectionActive { node_name: _ } => {
+            apply_if_auth(&client.auth, &|| Response::Ok {})
+        }
         Request::ElectionWin {} => apply_if_auth(&client.auth, &|| election_win(&dbs)),
         Request::Election { id, node_name } => {
             apply_if_auth(&client.auth, &|| election_eval(&dbs, id, &node_name))
